@@ -1,5 +1,6 @@
 import TacklerModel.Lemmas.Register
 import TacklerModel.Lemmas.Order
+import TacklerModel.Props.C01
 /-!
 # C03 — register report: canonical order and exact running totals
 
@@ -60,6 +61,39 @@ theorem load_sorted (ts : List Txn) :
     (sortTxns ts).Pairwise (fun a b => txnLe a b = true) ∧ (sortTxns ts).Perm ts :=
   ⟨sortTxns_sorted ts, sortTxns_perm ts⟩
 
+/-- what the canonical order says in plain terms: by instant, then code (absent = ""), then description, then
+    uuid text; (headers equal in all four are ordered absent-before-empty, `hdrLe_antisymm`) -/
+theorem canonical_order (a b : Txn) (h : txnLe a b = true) :
+    a.header.ts.ns ≤ b.header.ts.ns ∧
+    (a.header.ts.ns = b.header.ts.ns → optStr a.header.code ≤ optStr b.header.code ∧
+      (optStr a.header.code = optStr b.header.code → optStr a.header.desc ≤ optStr b.header.desc ∧
+        (optStr a.header.desc = optStr b.header.desc → optStr a.header.uuid ≤ optStr b.header.uuid))) := by
+  unfold txnLe hdrLe hdrKey at h
+  simp only at h
+  by_cases n1 : a.header.ts.ns < b.header.ts.ns
+  · exact ⟨by omega, fun e => by omega⟩
+  · by_cases n2 : b.header.ts.ns < a.header.ts.ns
+    · simp [n1, n2] at h
+    · simp only [n1, n2, if_false] at h
+      refine ⟨by omega, fun _ => ?_⟩
+      by_cases c1 : optStr a.header.code < optStr b.header.code
+      · exact ⟨String.not_lt.mp (String.lt_asymm c1), fun e => by rw [e] at c1; exact absurd c1 (String.lt_irrefl _)⟩
+      · by_cases c2 : optStr b.header.code < optStr a.header.code
+        · simp [c1, c2] at h
+        · simp only [c1, c2, if_false] at h
+          refine ⟨String.not_lt.mp c2, fun _ => ?_⟩
+          by_cases d1 : optStr a.header.desc < optStr b.header.desc
+          · exact ⟨String.not_lt.mp (String.lt_asymm d1), fun e => by rw [e] at d1; exact absurd d1 (String.lt_irrefl _)⟩
+          · by_cases d2 : optStr b.header.desc < optStr a.header.desc
+            · simp [d1, d2] at h
+            · simp only [d1, d2, if_false] at h
+              refine ⟨String.not_lt.mp d2, fun _ => ?_⟩
+              by_cases u2 : optStr b.header.uuid < optStr a.header.uuid
+              · by_cases u1 : optStr a.header.uuid < optStr b.header.uuid
+                · exact absurd u2 (String.lt_asymm u1)
+                · simp [u1, u2] at h
+              · exact String.not_lt.mp u2
+
 /-- the same for a loaded journal: what `string_to_txns` returns is the accepted set in canonical order -/
 theorem load_sorted_journal (st st' : Settings) (rs : List RawTxn) (ts : List Txn)
     (h : loadJournal st rs = .ok (ts, st')) :
@@ -72,6 +106,49 @@ theorem load_sorted_journal (st st' : Settings) (rs : List RawTxn) (ts : List Tx
     obtain ⟨⟨acc, st1⟩, h0, he⟩ := h
     cases he
     exact ⟨sortTxns_sorted acc, acc, h0, sortTxns_perm acc⟩
+
+/-! ### loaded journals satisfy the representation invariant -/
+
+theorem accepted_wf (st st' : Settings) (r : RawTxn) (t : Txn) (hwf : C01.RawWF r)
+    (h : acceptTxn st r = .ok (t, st')) : ∀ p ∈ t.posts, p.amount.scale ≤ 28 := by
+  unfold acceptTxn at h
+  split at h
+  · cases h
+  · cases h
+  · rename_i st1 _
+    split at h
+    · cases h
+    · cases h
+    · rename_i ps st2 hps
+      obtain ⟨p0, rest, hgood, _, hshape⟩ := C01.acceptPostings_shape st1 st2 r hwf ps hps
+      have hmain : ∀ q ∈ p0 :: rest, q.amount.scale ≤ 28 := by
+        intro q hq
+        obtain ⟨⟨rp, hrp, hg⟩, _⟩ := hgood q hq
+        rw [hg.amount]; exact (hwf rp hrp).1
+      have hall : ∀ q ∈ ps, q.amount.scale ≤ 28 := by
+        rcases hshape with ⟨_, rfl⟩ | ⟨a, cmt, l, _, rfl, _, _, _, _, _, _, _, _, hl⟩
+        · exact hmain
+        · intro q hq
+          rcases List.mem_append.mp hq with h1 | h1
+          · exact hmain q h1
+          · simp at h1; subst h1; exact hl
+      (repeat' split at h) <;> first | (cases h; done) | (cases h; exact hall)
+
+/-- **loaded_wf**: numbers that come out of the parser have at most 28 decimals (`C01.ofToken_wf`), hence so has
+    every posting amount of a loaded journal – the hypothesis `TxnsWF` of the theorems below holds for every
+    journal the implementation can load -/
+theorem loaded_wf (st st' : Settings) (rs : List RawTxn) (ts : List Txn) (hwf : ∀ r ∈ rs, C01.RawWF r)
+    (h : loadJournal st rs = .ok (ts, st')) : TxnsWF ts := by
+  unfold loadJournal at h
+  split at h
+  · cases h
+  · rw [Outcome.map_ok] at h
+    obtain ⟨⟨acc, st1⟩, h0, he⟩ := h
+    cases he
+    intro t ht
+    have ht' := (sortTxns_perm acc).subset ht
+    obtain ⟨r, hr, s1, s2, hf⟩ := mapMS_ok acceptTxn _ st st' acc h0 t ht'
+    exact accepted_wf s1 s2 r t (hwf r hr) hf
 
 /-! ### the selector only hides -/
 
